@@ -91,22 +91,44 @@ class Quad(object):
             else:
                 self.wires.append((proto, harness.DictHarness(program, proto, None, built=self.b)))
 
-    def wire_call(self, proto, h, mname, args, script):
+    def wire_call(self, proto, h, mname, args, script, via='server'):
         m = self.b.methods[mname]
         if proto == 'json':
             req = h.codec.request_bytes(m, args)
         else:
             req = xsdcodec.build_request(h.codec, m, args, proto)
-        o = h.call_raw(mname, req, script=script)
+        if via == 'wsgi':
+            from spyne.server.wsgi import WsgiApplication
+            if not hasattr(h, '_wsgi'):
+                h._wsgi = WsgiApplication(h.app)
+            self.b.rec.reset()
+            self.b.rec.script[mname] = script
+            o = drv.call_wsgi(h._wsgi, drv.environ('POST', '/', '', req, content_type='application/json' if proto == 'json' else 'text/xml; charset=utf-8'))
+            if o.escaped is None and not (o.status or '').startswith('2'):
+                from vf.drv import Outcome
+                try:
+                    kind, val = (h.codec.parse_response(m, o.out, is_fault=True) if proto == 'json' else xsdcodec.parse_response(h.codec, m, o.out, proto)[:2])
+                except Exception as e:
+                    return ('fault', ('undecodable', repr(e)[:80])), h.captured(mname)
+                return ('fault', (str(getattr(val, 'code', None)), str(getattr(val, 'string', None)))), h.captured(mname)
+        else:
+            o = h.call_raw(mname, req, script=script)
         calls = h.captured(mname)
         if o.escaped is not None:
             return ('escape', repr(o.escaped)), calls
         if o.fault is not None:
             return ('fault', (str(o.fault.faultcode), str(o.fault.faultstring))), calls
-        if proto == 'json':
-            kind, val = h.codec.parse_response(m, o.out, is_fault=False)
-        else:
-            kind, val, _ = xsdcodec.parse_response(h.codec, m, o.out, proto)
+        try:
+            if proto == 'json':
+                kind, val = h.codec.parse_response(m, o.out, is_fault=False)
+            else:
+                kind, val, _ = xsdcodec.parse_response(h.codec, m, o.out, proto)
+        except (xsdcodec.DecodeError, dictcodec.DecodeError) as e:
+            if via == 'wsgi':
+                return ('undecodable', '%s; status %s; body %r' % (e, o.status, (o.out or b'')[:120])), calls
+            raise
+        if kind != 'ok':
+            return ('fault', (str(getattr(val, 'code', None)), str(getattr(val, 'string', None)))), calls
         return ('ok', val), calls
 
     def null_call(self, mname, args, kwargs, script):
@@ -148,6 +170,16 @@ def ret_to_ref(b, m, r):
     if inspect.isgenerator(r):
         r = list(r)
     return spec.from_native(b, rt, r)
+
+
+def wire_equal(proto, wire, nval):
+    """the JSON document of a None object is the empty map (with wrappers ignored the two cannot be told apart there)"""
+    if proto == 'json':
+        if nval is None and isinstance(wire, Obj) and all(x is None for x in wire.f.values()):
+            return True
+        if isinstance(wire, (list, tuple)) and isinstance(nval, (list, tuple)) and len(wire) == len(nval):
+            return all(wire_equal(proto, w, n) for w, n in zip(wire, nval))
+    return tagged.equal(wire, nval)
 
 
 def one_case(q, mname, args, ret, res, site, casedoc, styles=('positional', 'keyword', 'mixed')):
@@ -204,7 +236,7 @@ def one_case(q, mname, args, ret, res, site, casedoc, styles=('positional', 'key
             if wout[0] == 'ok':
                 if out[0] != 'raw':
                     V('null-fault-wire-ok', proto, 'NullServer raised %r, %s path returned %r' % (out[1], proto, wout[1]))
-                elif not tagged.equal(wout[1], nval):
+                elif not wire_equal(proto, wout[1], nval):
                     V('result-differs', proto + '|' + cs, 'NullServer (%s) returned %r, %s wire path decodes %r; function returned %r' % (cs, nval, proto, wout[1], ret))
             elif wout[0] == 'fault':
                 if out[0] != 'fault':
@@ -259,6 +291,8 @@ def run_shard(shard, only=None):
         A = ['a', I, {}]
         prog = {'tns': TNS, 'classes': [{'n': 'P', 'fields': [['x', I], ['s', U]]}],
                 'services': [{'n': 'S', 'methods': [{'n': 'gen', 'args': [['n', I]], 'ret': A},
+                                                    {'n': 'gen2', 'args': [['n', I]], 'ret': [A, U]},
+                                                    {'n': 'gen3', 'args': [['n', I]], 'ret': [U, A]},
                                                     {'n': 'ign', 'args': [['n', I]], 'ret': ['c', 'P', {}]},
                                                     {'n': 'flt', 'args': [['n', I]], 'ret': I},
                                                     {'n': 'exc', 'args': [['n', I]], 'ret': I},
@@ -276,12 +310,34 @@ def run_shard(shard, only=None):
             res['evaluations'] += 1
             val = ret_to_ref(b, b.methods['gen'], out[1]) if out[0] == 'raw' else out
             for proto, h in q.wires:
-                wout, wcalls = q.wire_call(proto, h, 'gen', [n], script)
-                if wout[0] != 'ok' or not tagged.equal(wout[1], val):
-                    res['violations'].append({'sig': 'C18|generator-differs|%s' % proto,
-                                              'what': 'generator result of %d items: NullServer gives %r, %s wire path %r' % (n, val, proto, wout),
-                                              'case': {'shard': shard, 'only': key}, 'count': 1})
+                for via in ('server', 'wsgi'):
+                    wout, wcalls = q.wire_call(proto, h, 'gen', [n], script, via)
+                    if wout[0] != 'ok' or not tagged.equal(wout[1], val):
+                        res['violations'].append({'sig': 'C18|generator-differs|%s|%s' % (proto, via),
+                                                  'what': 'generator result of %d items: NullServer gives %r, %s wire path (%s) %r' % (n, val, proto, via, wout),
+                                                  'case': {'shard': shard, 'only': key}, 'count': 1})
             res['nontrivial'] += 1
+            # several return values one of which is a generator (first / last)
+            for mname, mkret in (('gen2', lambda: ((x for x in range(n)), 'tag')), ('gen3', lambda: ('tag', (x for x in range(n))))):
+                script2 = ('call', lambda ctx, k, mkret=mkret: mkret())
+                out2, _c = q.null_call(mname, [n], {}, script2)
+                res['evaluations'] += 1
+                if out2[0] != 'raw':
+                    res['violations'].append({'sig': 'C18|generator-multi-null|%s' % mname, 'what': 'NullServer: %r' % (out2,), 'case': {'shard': shard, 'only': key}, 'count': 1})
+                    continue
+                r2 = out2[1]
+                val2 = tuple(list(x) if hasattr(x, '__iter__') and not isinstance(x, str) else x for x in r2) if isinstance(r2, (list, tuple)) else r2
+                want2 = (list(range(n)), 'tag') if mname == 'gen2' else ('tag', list(range(n)))
+                if not tagged.equal(want2, val2):
+                    res['violations'].append({'sig': 'C18|generator-multi-null|%s' % mname, 'what': 'NullServer returned %r for %r' % (val2, want2), 'case': {'shard': shard, 'only': key}, 'count': 1})
+                for proto, h in q.wires:
+                    for via in ('server', 'wsgi'):
+                        wout, wcalls = q.wire_call(proto, h, mname, [n], script2, via)
+                        if wout[0] != 'ok' or not tagged.equal(want2, wout[1]):
+                            res['violations'].append({'sig': 'C18|generator-multi-differs|%s|%s|%s' % (mname, proto, via),
+                                                      'what': 'return values %r (one of them a generator): %s wire path (%s) gives %r' % (want2, proto, via, wout),
+                                                      'case': {'shard': shard, 'only': key}, 'count': 1})
+                res['nontrivial'] += 1
         # Ignored: delivered to the direct caller, empty over the wire
         key = ['ign', 0]
         if only is None or only == key:
